@@ -8,8 +8,8 @@ Import ListNotations.
 Open Scope N_scope.
 
 (* basic values are unchanged (only the static type may change) *)
-Theorem C02_basic_unchanged : forall e M F f cx src st, eval_v e M F (S f) cx PId src st = Done (src, st).
-Proof. exact eval_id. Qed.
+Theorem C02_basic_unchanged : forall e M F f cx z st, eval_v e M F (S f) cx PId (VBasic z) st = Done (VBasic z, st).
+Proof. exact eval_id_basic. Qed.
 
 (* pointers: nil converts to nil, non-nil to a non-nil pointer to the conversion of the pointee *)
 Theorem C02_pointer_nil : forall e M F f cx t q st,
